@@ -142,3 +142,22 @@ func (p *Program) Sizes() types.Sizes {
 	}
 	return types.SizesFor("gc", "amd64")
 }
+
+// IsOnceLiteral: f is run (only) as the function argument of a (*sync.Once).Do call.
+func (p *Program) IsOnceLiteral(f *ssa.Function) bool {
+	if p.onceLits == nil {
+		p.onceLits = map[*ssa.Function]bool{}
+		for _, g := range p.Funcs {
+			for _, b := range g.Blocks {
+				for _, in := range b.Instrs {
+					if c, ok := in.(ssa.CallInstruction); ok {
+						if _, lit := StaticCallee(c); lit != nil {
+							p.onceLits[lit] = true
+						}
+					}
+				}
+			}
+		}
+	}
+	return p.onceLits[f]
+}
